@@ -61,9 +61,11 @@ class PageFeatureProcessor:
         # --- Logic from DocumentService.apply_pagination_borders ---
 
         # 1. First Page Logic
-        has_column_headers = (
-            document.rtf_column_header and len(document.rtf_column_header) > 0
-        )
+        headers = document.rtf_column_header
+        if headers is not None and not isinstance(headers, (list, tuple)):
+            headers = [headers]
+        # ``[None]`` is the documented spelling of "no header for this section"
+        has_column_headers = bool(headers) and any(h is not None for h in headers)
 
         # If first page, NO headers, apply PAGE border_first to top of body
         if (
